@@ -301,8 +301,8 @@ func (c *c15Case) afterFailover(rng *rand.Rand, cfg gConfig, virtual bool) {
 		}
 		// finally every member re-joins: generation, leader, member list and subscriptions as reported by JoinGroup
 		for i := 0; i < cfg.M; i++ {
-			if a.slots[i].ID == "" {
-				continue
+			if a.slots[i].ID == "" || !a.prev.has(a.slots[i].ID) {
+				continue // an id that is no longer a member would be answered with a fresh random member id
 			}
 			same := true
 			for _, w := range c.worlds[1:] {
